@@ -44,7 +44,7 @@ pub fn make_clean_image_opt(seed: u64, hist: u64, max_bytes: usize, d7_free: boo
         // 1..6 chunk files
         case.cfg.max_records = *r.pick(&[Some(3usize), Some(4), Some(6), Some(10), None]);
         case.cfg.max_size = *r.pick(&[None, None, Some(400)]);
-        case.cfg.read_buf = Some(*r.pick(&[1usize, 7, 64, 4096]));
+        case.cfg.read_buf = Some(*r.pick(&[0usize, 1, 7, 64, 4096]));
         // keep payloads short so that exhaustive byte sweeps stay affordable
         for s in case.steps.iter_mut() {
             if let store::Op::Append(es) = &mut s.op {
